@@ -230,3 +230,7 @@ Proof.
   intro Hin. apply in_map_iff in Hin. destruct Hin as [m [E Hm]].
   apply app_inv_head in E. apply app_inv_head in E. subst m. contradiction.
 Qed.
+
+Lemma inst_pairs_names_and_ids : forall e ns,
+  map snd (inst_pairs e ns) = ns /\ (NoDup ns -> NoDup (map fst (inst_pairs e ns))).
+Proof. intros e ns. split; [apply inst_pairs_names|apply inst_pairs_ids_nodup]. Qed.
